@@ -39,8 +39,10 @@ type rfeat struct {
 }
 
 type machine struct {
-	w      *world.World
-	local  []lfeat
+	w       *world.World
+	ents    []api.EntityLocalInterface
+	removed []lfeat // features of a local entity that was removed during the history
+	local   []lfeat
 	remote []rfeat // identical on every peer
 	types  []model.FeatureTypeType
 	hist   []string
@@ -81,6 +83,7 @@ func setup(t *rapid.T) *machine {
 		m.w.AddLocalEntity(ents[0], model.EntityTypeTypeCEM, time.Second),
 		m.w.AddLocalEntity(ents[1], model.EntityTypeTypeEVSE, time.Second),
 	}
+	m.ents = locals
 	for i, ft := range m.types {
 		e := i % 2
 		for _, role := range []model.RoleType{model.RoleTypeServer, model.RoleTypeClient} {
@@ -197,10 +200,17 @@ func (m *machine) step(t *rapid.T) {
 	pi := rapid.IntRange(0, len(w.Peers)-1).Draw(t, "peer")
 	p := w.Peers[pi]
 	src := m.remote[rapid.IntRange(0, len(m.remote)-1).Draw(t, "source")]
-	destClass := rapid.SampledFrom([]string{"server", "server", "client", "special", "special", "unknown-feature", "unknown-entity"}).Draw(t, "destClass")
+	destClass := rapid.SampledFrom([]string{"server", "server", "client", "special", "special", "unknown-feature", "unknown-entity", "removed-feature"}).Draw(t, "destClass")
+	if destClass == "removed-feature" && len(m.removed) == 0 {
+		destClass = "unknown-feature"
+	}
 	var dest *lfeat
 	destAddr := &model.FeatureAddressType{}
 	switch destClass {
+	case "removed-feature":
+		// a feature of a local entity the application removed: it does not exist any more
+		r := m.removed[rapid.IntRange(0, len(m.removed)-1).Draw(t, "removedDest")]
+		destAddr = world.LA(r.ent, r.id)
 	case "unknown-feature":
 		destAddr = world.LA([]uint{1}, 77)
 	case "unknown-entity":
@@ -541,11 +551,34 @@ func roleOf(l *lfeat) string {
 
 func (r rfeat) ftRole() string { return fmt.Sprintf("%s/%s[%v/%d]", r.ft, r.role, r.ent, r.id) }
 
+// removeEntity: the application removes local entity [2]; its features must be treated as
+// non-existing destinations from now on.
+func (m *machine) removeEntity(t *rapid.T) {
+	if len(m.removed) > 0 {
+		t.Skip("already removed")
+	}
+	var keep []lfeat
+	for _, l := range m.local {
+		if len(l.ent) == 1 && l.ent[0] == 2 {
+			m.removed = append(m.removed, l)
+		} else {
+			keep = append(keep, l)
+		}
+	}
+	if len(m.removed) == 0 {
+		t.Skip("entity [2] has no features")
+	}
+	m.local = keep
+	m.w.Local.RemoveEntity(m.ents[1])
+	m.w.Sync()
+	m.logf("application removes local entity [2] (%d features)", len(m.removed))
+}
+
 func TestResponses(t *testing.T) {
 	rapid.Check(t, world.Prop(func(t *rapid.T) {
 		m := setup(t)
 		defer m.w.Teardown()
-		t.Repeat(map[string]func(*rapid.T){"datagram": m.step})
+		t.Repeat(map[string]func(*rapid.T){"datagram": m.step, "datagram2": m.step, "datagram3": m.step, "datagram4": m.step, "datagram5": m.step, "removeEntity": m.removeEntity})
 		// every step reaches ProcessCmd with a resolvable source feature (non-trivial by rule);
 		// distinctness is counted per tuple
 		for k := range m.tuples {
